@@ -15,6 +15,19 @@ Every input record carries a unique tag, so the patch that stores it is observed
 stored patch of every record is compared with Model/Metadata.v (determine + chunk_ids with argmin
 on the exact rational squared chords to the *reported* centres) and with the statement itself
 (own_centre_nearest: the reported centre of the storing patch is a nearest reported centre).
+
+The guard with 2, 3 and 4 catalogs: scenes of catalogs over the same centres whose extents differ strongly
+(compact randoms, wide samples) and whose records-per-patch tuples put them at every place of the checking
+order (distinct levels, ties, a tuple that sorts first without having most records); one catalog (the
+reference catalog itself, the first, a later or the last one checked) is displaced by a multiple of the
+observed radius of the reference catalog - inside rtol, between rtol and the radius, beyond the radius, all
+patches or a single one -, has its centres rotated, other patch ids (fewer, sparse, one more), or is built
+from an index column; two catalogs displaced in opposite directions.  Every such set goes through the real
+crosscorrelate (with ref_rand and / or unk_rand, any assignment of roles), autocorrelate (2 catalogs) and
+PatchLinkage.from_catalogs (any call order); accepted / InconsistentPatchesError is compared inside Coq with
+guard_many (Model/Metadata.v: ids of the first catalog, reference = first of the stable descending sort of the
+records-per-patch tuples, EVERY other catalog against the reference catalog's own radii, rtol 1/2) and with
+the statement (accepted => same ids and no centre farther from the reference centre than the radius).
 """
 import os
 import shutil
@@ -34,13 +47,19 @@ TRUSTED = [
     "treecorr k-means (patch_num mode) is an oracle: any centres are accepted",
     "option cases: a stored record is identified with its input record by a unique dyadic redshift tag; "
     "input files are written with pandas/pyarrow, h5py and astropy (library behaviour)",
+    "guard cases: 'the patch radius' of the statement is read as the radius of the reference catalog (the catalog with most "
+    "entries: the records-per-patch tuple that sorts first, as the code selects it; a failure is reported only if the statement "
+    "also fails for every other catalog that is maximal by tuple or by total number of records); the distances between the "
+    "centres of two catalogs are the implementation's own AngularCoordinates.distance values (accuracy: C14)",
 ]
 ASSUMPTIONS = ["weights are dyadic, so the float sum of weights is exact"]
 RULE = ("cases = (patch mode, centre order, sizes incl. single-object patches, weights on/off); distinct by generator parameters "
         "+ data seed; non-trivial when a patch has >= 2 records (the radius is a proper maximum) or the guard sees a mismatch; "
         "option cases = (given options, entry point/format, chunk size, workers + completion order, kind of index column, "
         "created or reopened catalog); non-trivial when more than one option is given and the column (if any) differs from the stored partition "
-        "or another option had to be ignored")
+        "or another option had to be ignored; "
+        "guard cases = (scene: centres, number of catalogs 2..4, extent and records-per-patch profile) x (which catalog is displaced / altered, "
+        "how, by how many reference radii, which patches) x (entry point, roles / call order); non-trivial unless all catalogs are aligned")
 HEADER = "From Verif Require Import Prelude Metadata.\nOpen Scope Q_scope.\n"
 
 
@@ -342,6 +361,238 @@ def run_options(ctx, terms, metas):
             ctx.disagree("Cases_C12_split", cid, dict(code=c, replay=rep, stored=m["stored"], column=m["column"]))
 
 
+# ------------------------------------------------------------------ the guard with 2..4 catalogs
+EXTENT = {"compact": 0.04, "medium": 0.12, "wide": 0.3}      # half-size of the box of records around a centre / centre spacing
+INSIDE = [0.25, 0.49, 0.4999]                                 # displacement in units of the reference catalog's patch radius
+BETWEEN = [0.5001, 0.51, 0.75, 0.99]
+OUTSIDE = [1.01, 1.5, 3.0, 6.0]
+SPECIAL = ["one-patch", "perm", "ids-fewer", "byname", "ids-sparse", "one-patch-between", "ids-extra"]
+ZCYCLE = [0.2, 0.3, 0.7]
+
+
+def gm_build(ctx, name, cents, recs, mode="centers", ids=None):
+    """catalog whose patch p has the records recs[p] = [(dx, dy) deg] placed around cents[p]"""
+    pts, col = [], []
+    for p, c in enumerate(cents):
+        for dx, dy in recs[p]:
+            pts.append(offset(c[0], c[1], dx, dy)); col.append(p if ids is None else ids[p])
+    z = [ZCYCLE[i % 3] for i in range(len(pts))]
+    if mode == "centers":
+        cat = build(ctx, name, pts, None, z, patch_centers=impl.AngularCoordinates(np.deg2rad(np.asarray(cents))))
+    else:
+        cat = build(ctx, name, pts, None, z, pid=col)
+    return cat, pts
+
+
+def gm_observe(cat):
+    return dict(ids=[int(k) for k in cat.keys()], nrec=[int(n) for n in cat.get_num_records()],
+                radii=[float(x) for x in cat.get_radii().data], centers=cat.get_centers())
+
+
+def gm_scene(rng, k, profile, counts_profile):
+    ncent = rng.choice([2, 3, 4, 5])
+    ra0, dec0 = rng.choice([(30.0, 10.0), (359.5, -40.0), (120.0, 88.5), (250.0, -89.0), (0.2, 0.0)])
+    spacing = rng.choice([1.0, 3.0])
+    cents = [offset(ra0, dec0, j * spacing, (j % 2) * spacing * 0.3) for j in range(ncent)]
+    rng.shuffle(cents)
+    # records per patch: who is the reference, in which order are the others looked at
+    if counts_profile == "levels":
+        levels = [12, 8, 5, 3][:k]
+        rng.shuffle(levels)
+        counts = [[lv] * ncent for lv in levels]
+    elif counts_profile == "ties":                            # the first catalog of the call is the reference
+        lv = rng.choice([1, 2, 5])                            # 1: single-object patches, radius 0
+        counts = [[lv] * ncent for _ in range(k)]
+    else:                                                     # "lex-vs-total": the tuple that sorts first has not most records
+        counts = [[3] + [12] * (ncent - 1), [6] + [4] * (ncent - 1)] + [[2] * ncent for _ in range(k - 2)]
+        rng.shuffle(counts)
+    ref = max(range(k), key=lambda i: (counts[i], -i))
+    if profile == "compact-ref":                              # compact reference (randoms), extended samples
+        ext = ["compact" if i == ref else rng.choice(["wide", "wide", "medium"]) for i in range(k)]
+        if k >= 3:
+            ext[rng.choice([i for i in range(k) if i != ref])] = "wide"
+    elif profile == "wide-ref":
+        ext = ["wide" if i == ref else rng.choice(["compact", "compact", "medium"]) for i in range(k)]
+    elif profile == "same":
+        e = rng.choice(list(EXTENT))
+        ext = [e] * k
+    else:
+        ext = [rng.choice(list(EXTENT)) for _ in range(k)]
+    recs = [[[(rng.uniform(-1, 1) * EXTENT[ext[i]] * spacing, rng.uniform(-1, 1) * EXTENT[ext[i]] * spacing) for _ in range(counts[i][p])]
+             for p in range(ncent)] for i in range(k)]
+    return dict(k=k, ncent=ncent, spacing=spacing, cents=cents, counts=counts, extents=ext, recs=recs, ref=ref,
+                profile=profile, counts_profile=counts_profile)
+
+
+def gm_variants(rng, sc):
+    """(who, kind, factor): catalog `who` of the scene is displaced / altered"""
+    out = [(None, "aligned", 0.0)]
+    k = sc["k"]
+    spec = list(SPECIAL); rng.shuffle(spec)
+    for who in range(k):
+        out.append((who, "inside", rng.choice(INSIDE)))
+        out.append((who, "between", rng.choice(BETWEEN)))
+        out.append((who, "outside", rng.choice(OUTSIDE)))
+        out.append((who, spec[who % len(spec)], rng.choice(OUTSIDE)))
+    if k >= 3:
+        out.append((None, "opposite", 0.4))
+    return out
+
+
+def gm_displaced(rng, sc, who, kind, f, ref_radii_deg):
+    """the given centres of every catalog of the scene under one variant"""
+    k, ncent, cents = sc["k"], sc["ncent"], sc["cents"]
+    given = [list(cents) for _ in range(k)]
+    def move(which, factor, patches, brg=None):
+        for p in patches:
+            b = rng.uniform(0.0, 2.0 * np.pi) if brg is None else brg
+            d = factor * ref_radii_deg[p]
+            for i in which:
+                given[i][p] = offset(cents[p][0], cents[p][1], d * np.sin(b), d * np.cos(b))
+    if kind in ("inside", "between", "outside"):
+        # displacing the reference catalog = displacing all the others the same way
+        move([who], f, range(ncent))
+    elif kind == "one-patch":
+        move([who], f, [rng.randrange(ncent)])
+    elif kind == "one-patch-between":
+        move([who], rng.choice(BETWEEN), [rng.randrange(ncent)])
+    elif kind == "perm":
+        given[who] = [cents[(p + 1) % ncent] for p in range(ncent)]
+    elif kind == "opposite":
+        a, b = rng.sample([i for i in range(k) if i != sc["ref"]], 2)
+        brg = rng.uniform(0.0, 2.0 * np.pi)
+        move([a], f, range(ncent), brg)
+        move([b], -f, range(ncent), brg)
+    return given
+
+
+def gm_call(entry, cfg, cats):
+    import yaw
+    from yaw.correlation.measurements import PatchLinkage
+    if entry == "linkage":
+        PatchLinkage.from_catalogs(cfg, *cats)
+    elif entry == "auto":
+        yaw.autocorrelate(cfg, cats[0], cats[1], max_workers=1)
+    elif entry == "cross/ref_rand":
+        yaw.crosscorrelate(cfg, cats[0], cats[1], ref_rand=cats[2], max_workers=1)
+    elif entry == "cross/unk_rand":
+        yaw.crosscorrelate(cfg, cats[0], cats[1], unk_rand=cats[2], max_workers=1)
+    elif entry == "cross/both":
+        yaw.crosscorrelate(cfg, cats[0], cats[1], ref_rand=cats[2], unk_rand=cats[3], max_workers=1)
+    else:
+        raise AssertionError(entry)
+
+
+def run_guard_many(ctx, cfg):
+    """see the module docstring; returns (terms, metas)"""
+    from yaw.catalog.catalog import InconsistentPatchesError
+    rng = ctx.rng
+    terms, metas = [], []
+    plans = [(k, profile, "levels") for k in (2, 3, 4) for profile in ("compact-ref", "wide-ref", "same")]
+    plans += [(3, "compact-ref", "ties"), (4, "random", "ties"), (3, "random", "lex-vs-total"), (4, "compact-ref", "lex-vs-total")]
+    for _ in range(ctx.n(0, 60)):
+        plans.append((rng.choice([2, 3, 3, 4, 4]), rng.choice(["compact-ref", "wide-ref", "same", "random"]),
+                      rng.choice(["levels", "levels", "ties", "lex-vs-total"])))
+    for sidx, (k, profile, counts_profile) in enumerate(plans):
+        sc = gm_scene(rng, k, profile, counts_profile)
+        ncent = sc["ncent"]
+        base, ref_radii_deg = None, None
+        try:
+            base = [gm_build(ctx, "gm_a%d" % i, sc["cents"], sc["recs"][i]) for i in range(k)]
+        except ValueError as e:
+            if "contains no data" in str(e):
+                ctx.bump("guardn-scene-skipped"); continue
+            raise
+        ref_radii_deg = [float(x) for x in np.rad2deg(base[sc["ref"]][0].get_radii().data)]
+        for vidx, (who, kind, f) in enumerate(gm_variants(rng, sc)):
+            given = gm_displaced(rng, sc, who, kind, f, ref_radii_deg)
+            cats, pts = [], []
+            try:
+                for i in range(k):
+                    if given[i] == sc["cents"] and not (i == who and kind.startswith(("ids", "byname"))):
+                        cat, p = base[i]
+                    elif i == who and kind == "ids-fewer":
+                        cat, p = gm_build(ctx, "gm_v%d" % i, sc["cents"][:-1], sc["recs"][i][:-1])
+                    elif i == who and kind == "ids-extra":
+                        far = offset(sc["cents"][0][0], sc["cents"][0][1], 0.0, -2.0 * sc["spacing"])
+                        cat, p = gm_build(ctx, "gm_v%d" % i, sc["cents"] + [far], sc["recs"][i] + [sc["recs"][i][0]])
+                    elif i == who and kind == "ids-sparse":
+                        cat, p = gm_build(ctx, "gm_v%d" % i, sc["cents"], sc["recs"][i], mode="name", ids=[2 * j for j in range(ncent)])
+                    elif i == who and kind == "byname":
+                        cat, p = gm_build(ctx, "gm_v%d" % i, sc["cents"], sc["recs"][i], mode="name")
+                    else:
+                        cat, p = gm_build(ctx, "gm_v%d" % i, given[i], sc["recs"][i])
+                    cats.append(cat); pts.append(p)
+            except ValueError as e:
+                if "contains no data" in str(e):
+                    ctx.bump("guardn-variant-skipped:%s" % kind); continue
+                raise
+            obs = [gm_observe(c) for c in cats]
+            entries = ["linkage", {2: "auto", 3: rng.choice(["cross/ref_rand", "cross/unk_rand"]), 4: "cross/both"}[k]]
+            for entry in entries:
+                order = list(range(k)); rng.shuffle(order)      # roles / call order: any assignment
+                called = [cats[i] for i in order]
+                o = [obs[i] for i in order]
+                try:
+                    gm_call(entry, cfg, called)
+                    accepted = True
+                except InconsistentPatchesError:
+                    accepted = False
+                dt = [[[] if (i == j or len(o[i]["ids"]) != len(o[j]["ids"]))
+                       else [float(x) for x in o[i]["centers"].distance(o[j]["centers"]).data] for j in range(k)] for i in range(k)]
+                gc = ["{| g_ids := %s; g_nrec := %s; g_radii := %s |}" % (fq.nlist(c["ids"]), fq.nlist(c["nrec"]), fq.qlist(c["radii"])) for c in o]
+                terms.append("c12_guardn_case %s %s %s" % (fq.lst(gc), fq.lst([fq.lst([fq.qlist(d) for d in row]) for row in dt]), fq.b(accepted)))
+                # labels and message material only (the verdict is the Coq code): the checking order of the call
+                chk = sorted(range(k), key=lambda i: tuple(o[i]["nrec"]), reverse=True)
+                place = "-" if who is None else ("ref", "1st", "2nd", "3rd")[chk.index(order.index(who))]
+                cid = ("guardn", sidx, vidx, entry)
+                metas.append((cid, dict(entry=entry, k=k, kind=kind, factor=f, displaced=who, place=place, call_order=order, accepted=accepted,
+                                        profile=profile, counts_profile=counts_profile, extents=[sc["extents"][i] for i in order],
+                                        ids=[c["ids"] for c in o], nrec=[c["nrec"] for c in o], radii=[c["radii"] for c in o], dists=dt,
+                                        checking_order=chk, given_centres=[given[i] for i in order], points=[pts[i] for i in order])))
+                ctx.count(key=(sidx, vidx, entry, tuple(order), tuple(map(tuple, (c["nrec"] for c in o)))), nontrivial=kind != "aligned",
+                          kind="guardn/k%d/%s/%s@%s/%s/%s" % (k, entry.split("/")[0], kind, place, profile, "accepted" if accepted else "refused"))
+                ctx.sample(dict(entry=entry, k=k, kind=kind, factor=f, place=place, extents=[sc["extents"][i] for i in order],
+                                nrec=[c["nrec"] for c in o], accepted=accepted), limit=3)
+            for i in range(k):
+                if cats[i] is not base[i][0]:
+                    shutil.rmtree(str(cats[i].cache_directory), ignore_errors=True)
+        for cat, _ in base:
+            shutil.rmtree(str(cat.cache_directory), ignore_errors=True)
+    ctx.log("guard cases with 2..4 catalogs: %d scenes, %d terms" % (len(plans), len(terms)))
+    return terms, metas
+
+
+def judge_guard_many(ctx, metas, codes):
+    for (cid, m), c in zip(metas, codes):
+        if not c:
+            continue
+        rep = dict(m)
+        if c & 8:
+            ctx.disagree("Cases_C12_guardn/shape", cid, dict(code=c, meta=rep))
+            continue
+        if c & 4:
+            # the statement fails: name the catalogs (harness side, for the message and the signature only)
+            k, chk = m["k"], m["checking_order"]
+            if any(ids != m["ids"][0] for ids in m["ids"]):
+                sig, what = "c12-guard-accepts-different-ids", "patch ids %s" % m["ids"]
+            else:
+                r = chk[0]
+                off = [(pos, j, max((d / rad if rad > 0 else float("inf")) for d, rad in zip(m["dists"][r][j], m["radii"][r]) if d > rad))
+                       for pos, j in enumerate(chk) if pos > 0 and any(d > rad for d, rad in zip(m["dists"][r][j], m["radii"][r]))]
+                later = bool(off) and off[0][0] > 1
+                sig = "c12-guard-accepts-misaligned" + ("-later-catalog" if later else "")
+                what = ("catalog(s) (place in the checking order, position in the call, centre offset / reference radius) %s; "
+                        "reference = catalog %d of the call with records per patch %s, extents in call order %s"
+                        % ([(p, j, round(x, 3)) for p, j, x in off], r, m["nrec"][r], m["extents"]))
+            ctx.fail(sig, "%s with %d catalogs ran without InconsistentPatchesError although the patch ids differ or centres lie farther from the "
+                          "centres of the reference catalog than its patch radius: %s" % (m["entry"], k, what), rep, case=cid)
+        elif c & 2:
+            ctx.disagree("c12-guard-reference-choice", cid, dict(code=c, meta=rep))
+        elif c & 1:
+            ctx.disagree("Cases_C12_guardn", cid, dict(code=c, meta=rep))
+
+
 def run(ctx):
     import yaw
     from yaw.catalog.catalog import InconsistentPatchesError
@@ -509,8 +760,10 @@ def run(ctx):
         shutil.rmtree(str(cat.cache_directory), ignore_errors=True)
     except ValueError:
         pass  # refusing is what the property asks for
-    # ---- several patch-definition options at once (precedence centres > name > num) ----
     ctx.log("single-option cases done")
+    # ---- the guard of measurements with 2, 3 and 4 catalogs ----
+    nterms, nmetas = run_guard_many(ctx, cfg)
+    # ---- several patch-definition options at once (precedence centres > name > num) ----
     run_options(ctx, terms, metas)
     codes = ctx.shards("Cases_C12_meta", HEADER, terms, shard=200)
     for (cid, meta), c in zip(metas, codes):
@@ -531,3 +784,5 @@ def run(ctx):
             ctx.fail("c12-guard-accepts-misaligned", "measurement accepted catalogs whose patch ids differ or whose centres are farther apart than the patch radius", meta, case=cid)
         if c & 1:
             ctx.disagree("Cases_C12_guard", cid, dict(code=c, meta=meta))
+    codes = ctx.shards("Cases_C12_guardn", HEADER, nterms, shard=60)
+    judge_guard_many(ctx, nmetas, codes)
